@@ -230,6 +230,7 @@ pub struct RunResult {
     pub reach: BTreeMap<&'static str, u64>,
     pub transitions: BTreeSet<u64>,
     pub state_classes: BTreeSet<u64>,
+    pub interleavings: BTreeSet<u64>,
     pub log_hash: u64,
     pub harness_error: Option<String>,
 }
@@ -256,6 +257,7 @@ pub fn run_one(seed: u64, prop: &PropCfg, run: u64, known: &[KnownFinding]) -> R
         reach: BTreeMap::new(),
         transitions: BTreeSet::new(),
         state_classes: BTreeSet::new(),
+        interleavings: BTreeSet::new(),
         log_hash: 0,
         harness_error: None,
     };
@@ -329,6 +331,7 @@ pub fn run_one(seed: u64, prop: &PropCfg, run: u64, known: &[KnownFinding]) -> R
     res.reach = exec.mon.reach.clone();
     res.transitions = exec.mon.transitions.clone();
     res.state_classes = exec.mon.state_classes.clone();
+    res.interleavings = exec.mon.listing_seq.values().map(|v| v.0).collect();
     res.log_hash = exec.log_hash;
     res
 }
@@ -490,6 +493,7 @@ pub struct BatchResult {
     pub reach: BTreeMap<&'static str, u64>,
     pub transitions: BTreeSet<u64>,
     pub state_classes: BTreeSet<u64>,
+    pub interleavings: BTreeSet<u64>,
     pub modes: BTreeMap<String, u64>,
     pub harness_error: Option<String>,
     pub log_hashes: Vec<(u64, u64)>,
@@ -537,6 +541,7 @@ pub fn run_batch(seed: u64, prop: &PropCfg, known: &[KnownFinding], workers: usi
         reach: BTreeMap::new(),
         transitions: BTreeSet::new(),
         state_classes: BTreeSet::new(),
+        interleavings: BTreeSet::new(),
         modes: BTreeMap::new(),
         harness_error: None,
         log_hashes: vec![],
@@ -560,6 +565,7 @@ pub fn run_batch(seed: u64, prop: &PropCfg, known: &[KnownFinding], workers: usi
         }
         b.transitions.extend(r.transitions.iter().cloned());
         b.state_classes.extend(r.state_classes.iter().cloned());
+        b.interleavings.extend(r.interleavings.iter().cloned());
         *b.modes.entry(format!("{:?}", r.mode)).or_insert(0) += 1;
         b.steps_total += r.stats.txs + r.stats.probes;
         if keep_hashes {
